@@ -181,7 +181,7 @@ def combine1fiber(inloglam, objflux, newloglam, objivar=None, verbose=False,
         bitval = int(sdss_flagval('SPPIXMASK', 'NODATA'))
         if 'finalmask' in kwargs:
             bitval |= (int(sdss_flagval('SPPIXMASK', 'NOPLUG')) *
-                       (kwargs['finalmask'][0] & int(sdss_flagval('SPPIXMASK', 'NODATA'))))
+                       (kwargs['finalmask'].ravel()[0] & int(sdss_flagval('SPPIXMASK', 'NODATA'))))
         andmask = andmask | bitval
         ormask = ormask | bitval
         return (newflux, newivar)
@@ -272,8 +272,9 @@ def combine1fiber(inloglam, objflux, newloglam, objivar=None, verbose=False,
                         objivar.ravel()[ss[ireplace]] = 0.0
                         log.debug('Replaced {0:d} pixels in objivar.'.format(len(ss[ireplace])))
                     if 'finalmask' in kwargs:
-                        kwargs['finalmask'][ss[ireplace]] = (kwargs['finalmask'][ss[ireplace]] |
-                                                             int(sdss_flagval('SPPIXMASK', 'COMBINEREJ')))
+                        ifinal = np.unravel_index(ss[ireplace], inloglam.shape)
+                        kwargs['finalmask'][ifinal] = (kwargs['finalmask'][ifinal] |
+                                                       int(sdss_flagval('SPPIXMASK', 'COMBINEREJ')))
             fullcombmask[ss] = bmask
         #
         # Restore objivar
@@ -316,10 +317,17 @@ def combine1fiber(inloglam, objflux, newloglam, objivar=None, verbose=False,
                 lowside = np.floor((inloglam_r[these]-newloglam[0])/binsz).astype('i4')
                 highside = lowside + 1
                 if 'finalmask' in kwargs:
-                    andmask[lowside] &= kwargs['finalmask'][these]
-                    andmask[highside] &= kwargs['finalmask'][these]
-                    ormask[lowside] |= kwargs['finalmask'][these]
-                    ormask[highside] |= kwargs['finalmask'][these]
+                    #
+                    # Input pixels beyond the output grid: IDL clips
+                    # out-of-range subscripts to the first or last pixel.
+                    #
+                    lowside = lowside.clip(0, nfinalpix - 1)
+                    highside = highside.clip(0, nfinalpix - 1)
+                    thesemask = kwargs['finalmask'].ravel()[these]
+                    andmask[lowside] &= thesemask
+                    andmask[highside] &= thesemask
+                    ormask[lowside] |= thesemask
+                    ormask[highside] |= thesemask
                 #
                 # Combine the dispersions + skies in the dumbest way possible
                 # [sic].
